@@ -28,6 +28,7 @@ var limiterCounters = map[string]map[string]bool{
 }
 
 func c16(c *Ctx) {
+	c16nameIndexIgnoresUID(c)
 	r := c.R
 	r.Decides("the per-cycle eviction counters of PodEvictor and EvictionLimiter are only accessed under their lock")
 	r.Decides("in every eviction operation the cap check and the counter increment happen inside one critical section (no check-then-act window in which concurrent evictors all pass the check)")
